@@ -79,7 +79,35 @@ const (
 
 var c18Scenarios = []string{"put-new-noshard", "put-new-shard-exists", "put-existing", "stream-chunks-commit", "stream-abandon", "stream-commit-zero-key", "second-put", "two-puts-same-shard", "stream-large"}
 
-func c18Keys(scn string) []string { return []string{c18KeyA, c18KeyB, c18KeyC} }
+func c18Keys(scn string) []string {
+	if scn == "stress" {
+		var ks []string
+		for i := 0; i < c18StressKeys; i++ {
+			ks = append(ks, c18StressKey(i))
+		}
+		return ks
+	}
+	return []string{c18KeyA, c18KeyB, c18KeyC}
+}
+
+// stress scenario: several goroutines put a pool of keys over and over; every third key is large so that a
+// kill at a random instant has a fair chance of landing inside a write.
+const c18StressKeys = 48
+
+func c18StressKey(i int) string {
+	if i%3 == 0 {
+		return fmt.Sprintf("big-%d", i)
+	}
+	return fmt.Sprintf("stress-%d", i)
+}
+
+// c18ContentFor is the one content a key ever has.
+func c18ContentFor(key string) []byte {
+	if strings.HasPrefix(key, "big-") {
+		return bytes.Repeat(c18Content(key), 600)
+	}
+	return c18Content(key)
+}
 
 // ---------------------------------------------------------------- the traced child
 
@@ -114,6 +142,46 @@ func c18Child(args []string) int {
 		} else {
 			results[k] = "error: " + err.Error()
 		}
+	}
+	if scn == "stress" {
+		// runs until killed (or for a bounded number of rounds)
+		runtime.UnlockOSThread()
+		var wg sync.WaitGroup
+		for g := 0; g < 6; g++ {
+			wg.Add(1)
+			go func(g int) {
+				defer wg.Done()
+				for round := 0; round < 400; round++ {
+					for i := g; i < c18StressKeys; i += 3 { // neighbours overlap: the same key is written by two goroutines
+						k := c18StressKey(i)
+						content := c18ContentFor(k)
+						if (i+round)%2 == 0 {
+							st.Put(ctx, k, content)
+							continue
+						}
+						w, commit, err := st.PutStream(ctx)
+						if err != nil {
+							continue
+						}
+						var werr error
+						for lo := 0; lo < len(content) && werr == nil; lo += 8192 {
+							hi := lo + 8192
+							if hi > len(content) {
+								hi = len(content)
+							}
+							_, werr = w.Write(content[lo:hi])
+						}
+						if werr != nil {
+							commit("")
+						} else {
+							commit(k)
+						}
+					}
+				}
+			}(g)
+		}
+		wg.Wait()
+		return 0
 	}
 	c18Mark("BEGIN")
 	switch scn {
@@ -207,7 +275,7 @@ func c18Verify(args []string) int {
 				return nil
 			}
 			got, _ := os.ReadFile(p)
-			want := c18Content(string(kb))
+			want := c18ContentFor(string(kb))
 			if scn == "stream-large" && string(kb) == c18KeyA {
 				want = bytes.Repeat(want, 400)
 			}
@@ -233,7 +301,7 @@ func c18Verify(args []string) int {
 		}
 	}
 	for _, k := range c18Keys(scn) {
-		want := c18Content(k)
+		want := c18ContentFor(k)
 		if scn == "stream-large" && k == c18KeyA {
 			want = bytes.Repeat(want, 400)
 		}
@@ -418,7 +486,72 @@ func (c18) Orchestrate(p *fw.Parent) error {
 	}
 	wg.Wait()
 	p.Count("distinct_post_crash_states", int64(len(states)))
-	// random-instant kills of a child doing continuous puts (thorough)
+	// random-instant kills of a child whose goroutines put continuously (no strace: the kill lands wherever
+	// the process happens to be, including inside another goroutine's write). The instant is wall-clock —
+	// it only chooses where the crash lands, the verdict is the verifier's.
+	trials := 24
+	if p.Tier == "thorough" {
+		trials = 300
+	}
+	kr := fw.NewRNG(fw.Mix(p.Seed, fw.HashString("C18-random-kill"), fw.HashString(p.Tier)))
+	delays := make([]time.Duration, trials)
+	for i := range delays {
+		delays[i] = time.Duration(2+kr.Intn(120)) * time.Millisecond
+	}
+	rkStates := map[string]struct{}{}
+	for t := 0; t < trials; t++ {
+		t := t
+		wg.Add(1)
+		sem <- struct{}{}
+		go func() {
+			defer wg.Done()
+			defer func() { <-sem }()
+			dir := filepath.Join(p.WorkDir, fmt.Sprintf("rk-%d", t))
+			os.MkdirAll(dir, 0o755)
+			defer os.RemoveAll(dir)
+			cmd := exec.Command(self, "-aux", "fschild", "run", "stress", dir)
+			if err := cmd.Start(); err != nil {
+				p.AddInconclusive("random kill: cannot start the child: " + err.Error())
+				return
+			}
+			time.Sleep(delays[t])
+			cmd.Process.Kill()
+			cmd.Wait()
+			out, err := exec.Command(self, "-aux", "fsverify", dir, "stress", "-").Output()
+			var v c18Verdict
+			if err == nil {
+				err = json.Unmarshal(bytes.TrimSpace(out), &v)
+			}
+			if err != nil {
+				p.AddInconclusive(fmt.Sprintf("random kill %d: verifier failed to run: %v", t, err))
+				return
+			}
+			p.Count("random_kills", 1)
+			p.AddEvaluations(1)
+			complete := 0
+			for _, st := range v.Keys {
+				if st == "complete" {
+					complete++
+				}
+			}
+			if strings.Contains(v.State, ".temp/<staging>") {
+				p.Count("random_kills_with_staging_file_left", 1)
+			}
+			if complete > 0 && complete < c18StressKeys {
+				p.Count("random_kills_mid_workload", 1)
+			}
+			mu.Lock()
+			rkStates[fmt.Sprintf("%d|%v", complete, strings.Contains(v.State, ".temp/<staging>"))] = struct{}{}
+			mu.Unlock()
+			p.Seen(fw.HashString(fmt.Sprintf("rk|%d|%d", t, complete)), complete > 0)
+			if len(v.Problems) > 0 {
+				p.AddDeviation(fw.Deviation{Sig: "C18:not-atomic-after-random-kill", Detail: fmt.Sprintf("6 goroutines putting %d keys continuously, SIGKILL after %v: %s\n  directory afterwards: %s", c18StressKeys, delays[t], strings.Join(v.Problems, "; "), clipS(v.State, 1500)),
+					Batch: 9500, Index: t, Case: json.RawMessage(fmt.Sprintf(`{"scenario":"stress","trial":%d,"delay_ms":%d}`, t, delays[t].Milliseconds()))})
+			}
+		}()
+	}
+	wg.Wait()
+	p.Count("random_kill_distinct_outcomes", int64(len(rkStates)))
 	// part 3: concurrent histories in the race build
 	p.RunBatches()
 	c18ScanRaceLogs(p)
